@@ -28,10 +28,17 @@ impl TerminationModelBuilder {
                     )
                 })?;
                 let dur = dur_val.as_duration()?;
-                let freq = config.get_config_i64(&"frequency", &local_scope)? as u64;
+                let freq = config.get_config_i64(&"frequency", &local_scope)?;
+                if freq <= 0 {
+                    // the runtime limit is tested every `frequency` iterations (iteration % frequency)
+                    return Err(CompassConfigurationError::UserConfigurationError(format!(
+                        "{}.frequency must be positive, found {}",
+                        local_scope, freq
+                    )));
+                }
                 Ok(T::QueryRuntimeLimit {
                     limit: dur,
-                    frequency: freq,
+                    frequency: freq as u64,
                 })
             }
             "iterations" => {
